@@ -194,13 +194,18 @@ class Decimal(SimpleModel):
 
     @staticmethod
     def validate_native(cls, value):
-        return SimpleModel.validate_native(cls, value) and (
-            value is None or (
-                value >  cls.Attributes.gt and
-                value >= cls.Attributes.ge and
-                value <  cls.Attributes.lt and
-                value <= cls.Attributes.le
-            ))
+        try:
+            return SimpleModel.validate_native(cls, value) and (
+                value is None or (
+                    value >  cls.Attributes.gt and
+                    value >= cls.Attributes.ge and
+                    value <  cls.Attributes.lt and
+                    value <= cls.Attributes.le
+                ))
+
+        except decimal.InvalidOperation:
+            # NaN is unordered: comparing it with a Decimal bound signals.
+            return False
 
 
 class Double(Decimal):
